@@ -225,7 +225,7 @@ var floatEdges = []float64{0, math.Copysign(0, -1), 1, -1, 1.5, -2.75, 2.5, 65, 
 	1e300, -1e300, math.MaxFloat64, math.SmallestNonzeroFloat64, 1e-7, 0.1, 3.4028235677973366e38, 3.5e38, math.Inf(1), math.Inf(-1)}
 var strEdges = []string{"", "a", "A", "ab", "abc", "héllo", "日本", "x y", "0", "1", "\xff", "a\x00b", "é"}
 
-func genInt(r *rng) int64 {
+func rInt(r *rng) int64 {
 	switch r.n(4) {
 	case 0, 1:
 		return intEdges[r.n(len(intEdges))]
@@ -236,7 +236,7 @@ func genInt(r *rng) int64 {
 	}
 }
 
-func genUint(r *rng) uint64 {
+func rUint(r *rng) uint64 {
 	switch r.n(4) {
 	case 0, 1:
 		return uintEdges[r.n(len(uintEdges))]
@@ -247,14 +247,14 @@ func genUint(r *rng) uint64 {
 	}
 }
 
-func genFloat(r *rng) float64 {
+func rFloat(r *rng) float64 {
 	switch r.n(4) {
 	case 0, 1:
 		return floatEdges[r.n(len(floatEdges))]
 	case 2:
 		return float64(r.n(4001)-2000) / 8
 	default:
-		return float64(genInt(r))
+		return float64(rInt(r))
 	}
 }
 
@@ -275,13 +275,13 @@ func genVal(t reflect.Type, r *rng, depth int) reflect.Value {
 	case reflect.Bool:
 		v.SetBool(r.n(2) == 1)
 	case reflect.Int, reflect.Int8, reflect.Int16, reflect.Int32, reflect.Int64:
-		v.SetInt(truncInt(genInt(r), t.Bits()))
+		v.SetInt(truncInt(rInt(r), t.Bits()))
 	case reflect.Uint, reflect.Uint8, reflect.Uint16, reflect.Uint32, reflect.Uint64:
-		v.SetUint(truncUint(genUint(r), t.Bits()))
+		v.SetUint(truncUint(rUint(r), t.Bits()))
 	case reflect.Float32:
-		v.SetFloat(float64(float32(genFloat(r))))
+		v.SetFloat(float64(float32(rFloat(r))))
 	case reflect.Float64:
-		v.SetFloat(genFloat(r))
+		v.SetFloat(rFloat(r))
 	case reflect.String:
 		v.SetString(strEdges[r.n(len(strEdges))])
 	case reflect.Interface:
